@@ -5,6 +5,7 @@ CONSTANTS N = 4
  FullY = TRUE
  Pep709 = FALSE
  Skeleton = FALSE
+ ChainOnly = FALSE
  AnyOrder = TRUE
  AllOptions = FALSE
 INVARIANT EmitProgram
